@@ -102,14 +102,15 @@ func (r *fragReader) Close() error { return nil }
 
 // run state shared by actors
 type runState struct {
-	s      Scenario
-	ev     atomic.Int64
-	mu     sync.Mutex
-	reqs   []*ReqRec
-	nextID int
-	db     *chfake.DB
-	exp    map[string]*ExpRow  // tag -> row
-	expVal map[float64]*ExpRow // metric value -> row
+	s       Scenario
+	ev      atomic.Int64
+	mu      sync.Mutex
+	reqs    []*ReqRec
+	nextID  int
+	db      *chfake.DB
+	exp     map[string]*ExpRow  // tag -> row
+	expVal  map[float64]*ExpRow // metric value -> row
+	hostile bool                // the run contains hostile requests (rows decoded from mutated bodies are not predictable)
 }
 
 func (st *runState) nextEv() int64 { return st.ev.Add(1) }
@@ -224,8 +225,15 @@ func (st *runState) body(ri *simcheck.RunInfo) *simrt.Sim {
 	case <-sim.Killed():
 	}
 	if !timedOut && !isKilled(sim) {
-		// grace for request-spawned goroutines to finish
-		time.Sleep(2*time.Duration(s.Cfg.DBTimerMs)*time.Millisecond + 2*time.Second)
+		// grace for request-spawned goroutines to finish: work started for a request may legitimately
+		// outlive its (error) answer by a slow INSERT, a write timeout or pending retries - bounded by B
+		step := 4 * time.Duration(s.Cfg.DBTimerMs) * time.Millisecond
+		for waited := time.Duration(0); waited < b && !isKilled(sim); waited += step {
+			time.Sleep(step)
+			if len(requestGoroutines(sim)) == 0 {
+				break
+			}
+		}
 	}
 	_ = startT
 	st.finishWith(ri, sim, sys, t0, timedOut, b)
@@ -243,7 +251,15 @@ func (st *runState) client(sim *simrt.Sim, sys *System, ci int, c Client) {
 		id := st.nextID
 		st.mu.Unlock()
 		w := Encode(id, op, time.Now().UnixNano())
-		rec := &ReqRec{ID: id, Client: ci, Op: op, Wire: w, StartT: time.Now(), BodyLen: len(w.Body)}
+		if op.Hostile != "" {
+			Mutate(w, op.Hostile, op.HostileN)
+		}
+		rec := &ReqRec{ID: id, Client: ci, Op: op, Wire: w, StartT: time.Now(), BodyLen: len(w.Body), Hostile: op.Hostile != ""}
+		if rec.Hostile {
+			st.mu.Lock()
+			st.hostile = true
+			st.mu.Unlock()
+		}
 		st.mu.Lock()
 		st.reqs = append(st.reqs, rec)
 		for _, x := range w.Rows {
@@ -291,6 +307,18 @@ func isKilled(s simKilled) bool {
 	}
 }
 
+// requestGoroutines lists managed goroutines spawned (transitively) by client actors that are still alive.
+func requestGoroutines(sim *simrt.Sim) []string {
+	var res []string
+	for _, g := range sim.Alive("") {
+		if g.Role == "system" || g.Role == "client" || strings.HasPrefix(g.Root, "r001") {
+			continue
+		}
+		res = append(res, fmt.Sprintf("%s(%s)@%s", g.ID, g.Role, g.Site()))
+	}
+	return res
+}
+
 func (st *runState) finish(ri *simcheck.RunInfo, sim *simrt.Sim, t0 time.Time, timedOut bool) {
 	st.finishWith(ri, sim, nil, t0, timedOut, 0)
 }
@@ -310,12 +338,7 @@ func (st *runState) finishWith(ri *simcheck.RunInfo, sim *simrt.Sim, sys *System
 	// census before teardown
 	var leaked []string
 	if !isKilled(sim) {
-		for _, g := range sim.Alive("") {
-			if g.Role == "system" || strings.HasPrefix(g.Root, "r001") {
-				continue
-			}
-			leaked = append(leaked, fmt.Sprintf("%s(%s)@%s", g.ID, g.Role, g.Site()))
-		}
+		leaked = requestGoroutines(sim)
 	}
 	if sys != nil {
 		sys.Stop()
@@ -352,6 +375,7 @@ func (st *runState) finishWith(ri *simcheck.RunInfo, sim *simrt.Sim, sys *System
 	}
 	okRows := map[string][]loc{}     // tag -> successful occurrences
 	okVals := map[float64][]loc{}    // metric value -> successful occurrences
+	okAttr := map[string][]loc{}     // span tag -> successful tag-index rows (key "name")
 	seriesAt := map[string][]int64{} // "fp|type|date" -> EndEv of successful series blocks
 	fpLabels := map[uint64]map[string]bool{}
 	labelFp := map[string]map[uint64]bool{}
@@ -377,6 +401,60 @@ func (st *runState) finishWith(ri *simcheck.RunInfo, sim *simrt.Sim, sys *System
 					} else {
 						okVals[val.Vals[i].(float64)] = append(okVals[val.Vals[i].(float64)], loc{blk, i})
 					}
+				}
+			}
+		case strings.HasPrefix(blk.Table, "tempo_traces_attrs_gin"):
+			key, val, sid, tid, ts := blk.Col("key"), blk.Col("val"), blk.Col("span_id"), blk.Col("trace_id"), blk.Col("timestamp_ns")
+			if key == nil || val == nil || sid == nil || tid == nil || ts == nil {
+				add("C02", "tags-block-columns", "tempo tags block lacks a column", blk.SQL)
+				continue
+			}
+			for i := 0; i < blk.Rows; i++ {
+				if key.Vals[i].(string) != "name" {
+					continue
+				}
+				tag := val.Vals[i].(string)
+				x := st.exp[tag]
+				if x == nil || !x.Span {
+					if !st.hostile {
+						add("C02", "row-not-submitted", "a block contains a row no request submitted", fmt.Sprintf("tags INSERT #%d row %d: name=%q", blk.Seq, i, tag))
+					}
+					continue
+				}
+				if !st.hostileReq(x.Req) && (sid.Vals[i].(string) != x.SpanID || tid.Vals[i].(string) != x.TraceID || ts.Vals[i].(int64) != x.TsNs) {
+					add("C02", "row-fields-mixed", "row of entry differs from the submitted entry (tag-index row)",
+						fmt.Sprintf("tags INSERT #%d row %d for span %s: span_id=%x trace_id=%x ts=%d; submitted span_id=%x trace_id=%x ts=%d", blk.Seq, i, tag, sid.Vals[i], tid.Vals[i], ts.Vals[i], x.SpanID, x.TraceID, x.TsNs))
+				}
+				if blk.Finished && blk.Err == nil {
+					okAttr[tag] = append(okAttr[tag], loc{blk, i})
+				}
+			}
+		case strings.HasPrefix(blk.Table, "tempo_traces"):
+			name, sid, tid, ts, dur := blk.Col("name"), blk.Col("span_id"), blk.Col("trace_id"), blk.Col("timestamp_ns"), blk.Col("duration_ns")
+			if name == nil || sid == nil || tid == nil || ts == nil || dur == nil {
+				add("C02", "traces-block-columns", "tempo traces block lacks a column", blk.SQL)
+				continue
+			}
+			seen := map[string]bool{}
+			for i := 0; i < blk.Rows; i++ {
+				tag := name.Vals[i].(string)
+				x := st.exp[tag]
+				if x == nil || !x.Span {
+					if !st.hostile {
+						add("C02", "row-not-submitted", "a block contains a row no request submitted", fmt.Sprintf("traces INSERT #%d row %d: name=%q", blk.Seq, i, tag))
+					}
+					continue
+				}
+				if seen[tag] {
+					add("C02", "row-duplicated-in-block", "a submitted row occurs twice in one block", fmt.Sprintf("traces INSERT #%d contains span %s twice", blk.Seq, tag))
+				}
+				seen[tag] = true
+				if !st.hostileReq(x.Req) && (sid.Vals[i].(string) != x.SpanID || tid.Vals[i].(string) != x.TraceID || ts.Vals[i].(int64) != x.TsNs || dur.Vals[i].(int64) != x.DurNs) {
+					add("C02", "row-fields-mixed", "row of entry differs from the submitted entry (span row)",
+						fmt.Sprintf("traces INSERT #%d row %d for span %s: span_id=%x trace_id=%x ts=%d dur=%d; submitted span_id=%x trace_id=%x ts=%d dur=%d", blk.Seq, i, tag, sid.Vals[i], tid.Vals[i], ts.Vals[i], dur.Vals[i], x.SpanID, x.TraceID, x.TsNs, x.DurNs))
+				}
+				if blk.Finished && blk.Err == nil {
+					okRows[tag] = append(okRows[tag], loc{blk, i})
 				}
 			}
 		case strings.HasPrefix(blk.Table, "time_series"):
@@ -455,6 +533,9 @@ func (st *runState) finishWith(ri *simcheck.RunInfo, sim *simrt.Sim, sys *System
 			continue
 		}
 		ok2xx := r.Status >= 200 && r.Status < 300
+		if r.Hostile {
+			continue // any status is acceptable for a hostile body; its rows are not predictable
+		}
 		if !ok2xx {
 			if fired == 0 && !r.Hostile && len(st.s.Faults) == 0 {
 				add("C03", "well-formed-body-rejected", fmt.Sprintf("well-formed %s body answered %d without any fault", r.Op.Proto, r.Status),
@@ -476,6 +557,20 @@ func (st *runState) finishWith(ri *simcheck.RunInfo, sim *simrt.Sim, sys *System
 			for _, l := range ls {
 				if l.b.EndEv < r.StatusEv {
 					before++
+				}
+			}
+			if x.Span && len(ls) > 0 {
+				// the span's tag-index rows must be durable too
+				ab := 0
+				for _, l := range okAttr[x.Tag] {
+					if l.b.EndEv < r.StatusEv {
+						ab++
+					}
+				}
+				if len(okAttr[x.Tag]) == 0 {
+					ls = nil
+				} else if ab == 0 {
+					before = 0
 				}
 			}
 			if len(ls) == 0 {
@@ -510,6 +605,9 @@ func (st *runState) finishWith(ri *simcheck.RunInfo, sim *simrt.Sim, sys *System
 		// stream identity + C04 index coverage
 		fpOfStream := map[string]uint64{}
 		for _, x := range r.Wire.Rows {
+			if x.Span {
+				continue
+			}
 			var ls []loc
 			if x.Tag != "" {
 				ls = okRows[x.Tag]
@@ -572,7 +670,7 @@ func (st *runState) finishWith(ri *simcheck.RunInfo, sim *simrt.Sim, sys *System
 	setOfFp := map[uint64]map[string]bool{}
 	for _, r := range st.reqs {
 		for _, x := range r.Wire.Rows {
-			if x.Labels == nil {
+			if x.Labels == nil || x.Span {
 				continue
 			}
 			var ls []loc
@@ -682,8 +780,13 @@ func (st *runState) checkSampleBlock(blk *chfake.Block, add func(p, oracle, sig,
 			x, id = st.expVal[v], fmt.Sprintf("v%v", v)
 		}
 		if x == nil {
-			add("C02", "row-not-submitted", "a block contains a row no request submitted",
-				fmt.Sprintf("INSERT #%d row %d: ts=%d type=%d value=%v line=%.60q matches no submitted entry", blk.Seq, i, ts.Vals[i], tp.Vals[i], v, line))
+			if !st.hostile {
+				add("C02", "row-not-submitted", "a block contains a row no request submitted",
+					fmt.Sprintf("INSERT #%d row %d: ts=%d type=%d value=%v line=%.60q matches no submitted entry", blk.Seq, i, ts.Vals[i], tp.Vals[i], v, line))
+			}
+			continue
+		}
+		if st.hostileReq(x.Req) {
 			continue
 		}
 		if seen[id] {
@@ -705,6 +808,15 @@ func (st *runState) checkSampleBlock(blk *chfake.Block, add func(p, oracle, sig,
 					blk.Seq, i, id, x.Req, gotTs, gotTp, v, line, x.TsNs, x.Type, x.Val, x.Line))
 		}
 	}
+}
+
+func (st *runState) hostileReq(id int) bool {
+	for _, r := range st.reqs {
+		if r.ID == id {
+			return r.Hostile
+		}
+	}
+	return false
 }
 
 func (st *runState) noOtherTs(ts int64) bool {
